@@ -115,6 +115,10 @@ def add_variation_task(order, testparticle):
         if order == 2:
             v.prove("config.index_1st_order_a", fld(Nc, "index_1st_order_a") == ia)
             v.prove("config.index_1st_order_b", fld(Nc, "index_1st_order_b") == ib)
+        else:
+            # unused by a first-order set, but saved and compared member-wise (C17): must not be left as the realloc'ed
+            # memory happens to be (two identically built simulations compared unequal)
+            v.prove("config.unused_members_are_determined", z3.And(fld(Nc, "index_1st_order_a") == 0, fld(Nc, "index_1st_order_b") == 0))
         j = v.int("j")
         v.assume(0 <= j, j < Nc)
         for f in oldvc:
